@@ -13,6 +13,8 @@
 (*               snaps: sequence of statistics snapshots taken so far      *)
 (*     ends      set of event indices at which a session ended unkilled    *)
 (*     outs      the output file names                                     *)
+(*     foreign   the initial file carries another configuration's header   *)
+(*     ctorfailed  some constructor raised                                 *)
 (***************************************************************************)
 EXTENDS Integers, Sequences, FiniteSets, TLC, Json, IOUtils
 
@@ -33,8 +35,11 @@ Rows(o) == files[o].ls
 Subj(o) == Range(Tr.subjects[o]) \cup Range(Tr.prior)
 
 NoDupRows       == l >= 1 => \A o \in Outs : \A s \in Range(Rows(o)) \ {"H"} : Count(Rows(o), s) = 1
-HeaderFirstOnce == l >= 1 => \A o \in Outs : Len(Rows(o)) > 0 => Rows(o)[1] = "H" /\ Count(Rows(o), "H") = 1
-RowsAreSubjects == l >= 1 => \A o \in Outs : Range(Rows(o)) \subseteq {"H"} \cup Subj(o)
+HeaderFirstOnce == (l >= 1 /\ ~Tr.foreign) => \A o \in Outs : Len(Rows(o)) > 0 => Rows(o)[1] = "H" /\ Count(Rows(o), "H") = 1
+RowsAreSubjects == l >= 1 => \A o \in Outs : Range(Rows(o)) \subseteq {"H"} \cup Subj(o) \cup (IF Tr.foreign THEN {"X"} ELSE {})
+\* an output file written with another configuration (foreign header) is refused by the constructor
+\* and never modified
+ForeignRefused == (l >= 1 /\ Tr.foreign) => (files = Tr.init /\ (l = Len(Tr.ev) => Tr.ctorfailed))
 RowsAppendOnly  == l >= 1 => \A o \in Outs : /\ Len(Rows(o)) >= Len(prev[o].ls)
                                              /\ SubSeq(Rows(o), 1, Len(prev[o].ls)) = prev[o].ls
 \* at the unkilled end of a session: header once and every subject exactly once
@@ -46,4 +51,6 @@ SnapOnlyComplete ==
     l >= 1 => \A i \in 1..Len(Tr.ev[l].snaps) :
                  Range(Tr.ev[l].snaps[i].rows) \subseteq Subj(Tr.ev[l].snaps[i].out)
 NoCallFailed == l >= 1 => Tr.ev[l].failed = 0
+\* constructing an aggregator on a file of its own configuration (or on no / an empty file) never fails
+CtorSucceeds == (l >= 1 /\ l = Len(Tr.ev) /\ ~Tr.foreign) => ~Tr.ctorfailed
 =============================================================================
